@@ -35,7 +35,10 @@ class Case:
 def run_case(case: Case, max_paths=200000):
     """Explore one case.  Returns dict(paths, queries, solver_s, failures=[(args, obs)], divergences=[...])."""
     terms = {k: z3.Int(k) for k in case.ranges}
-    assume = [z3.And(terms[k] >= lo, terms[k] <= hi) for k, (lo, hi) in case.ranges.items()]
+    assume = [c for k, (lo, hi) in case.ranges.items() for c in
+              ([terms[k] >= lo] if lo is not None else []) + ([terms[k] <= hi] if hi is not None else [])]
+    if "assume" in case.meta:
+        assume += list(case.meta["assume"](terms))
     failures, divergences = [], []
     stats = dict(paths=0, queries=0, solver_s=0.0, native_replays=0)
     state = zsym.PathState(assume, 20000)
@@ -71,6 +74,23 @@ def run_case(case: Case, max_paths=200000):
             break
     stats["wall"] = time.time() - t0
     return dict(stats=stats, failures=failures, divergences=divergences)
+
+
+def choice(v, n):
+    """An index < n taken from parameter `v`: in the symbolic run the parameter is constrained to
+    [0, n) for the rest of the path and forked over its feasible values; in the native re-execution it
+    is the model's plain int."""
+    if isinstance(v, SInt):
+        # n - 1 two-way decisions on a fresh variable; both sides are feasible by construction (no solver call)
+        c = zsym.ctx()
+        for val in range(n - 1):
+            if c.branch(v.t == val, free=True):
+                return val
+        c.assume(v.t == n - 1)
+        return n - 1
+    if not 0 <= v < n:
+        raise AssertionError(f"native re-execution: choice {v} outside [0,{n})")
+    return v
 
 
 def _norm(o):
